@@ -33,6 +33,7 @@ struct BTreeInspector;
 
 #include <algorithm>
 #include <climits>
+#include <cstdio>
 #include <functional>
 #include <iterator>
 #include <map>
@@ -50,6 +51,46 @@ typedef std::pair<int, int> KD; // (key, datum) as plain ints; datum 0 for sets
 
 inline int key_int(int k) { return k; }
 inline int key_int(const Tracked& t) { return t.value(); }
+
+// ---------------------------------------------------------------------------------------------
+// element types with a DESTRUCTIVE move (alias targets): std::string keys / data, verif::Tracked.
+// The history runner and the std model keep talking in plain ints; an int k is stored in the tlx container as
+//   Tracked(k)            (moved-from value: the poison Tracked::kMovedFrom)
+//   std::string enc(k)    10 decimal digits of k + 2^31 (so the lexicographic order of the strings IS the numeric order
+//                         of the ints: std::less<std::string> / std::greater<std::string> correspond to std::less<int> /
+//                         std::greater<int> of the model) followed by a tail that keeps the string off the small-string
+//                         buffer: the characters live on the heap, a move really empties the source, and ASan sees
+//                         reads of a destroyed element.
+// Decoding anything that is not such a string (in particular the empty string a move leaves behind) gives the same
+// poison value, which no generator produces: a moved-from element that became part of the container's contents shows up
+// as wrong contents (label C01/moved-from-element). C++ lets a moved-from value be observed only in the SOURCE of a
+// move, never in what a container holds.
+// ---------------------------------------------------------------------------------------------
+static const int kPoison = Tracked::kMovedFrom;
+static const char kStrTail[] = "-btree-element-kept-on-the-heap";
+inline std::string enc_str(int k) {
+    char buf[64];
+    snprintf(buf, sizeof(buf), "%010u%s", (unsigned)k ^ 0x80000000u, kStrTail);
+    return std::string(buf);
+}
+inline int key_int(const std::string& s) {
+    if (s.size() != 10 + sizeof(kStrTail) - 1 || s.compare(10, std::string::npos, kStrTail) != 0) return kPoison;
+    unsigned long v = 0;
+    for (int i = 0; i < 10; ++i) {
+        if (s[i] < '0' || s[i] > '9') return kPoison;
+        v = v * 10 + (unsigned long)(s[i] - '0');
+    }
+    if (v > 0xFFFFFFFFul) return kPoison;
+    return (int)((unsigned)v ^ 0x80000000u);
+}
+template <class E>
+struct Elem {
+    static E make(int k) { return E(k); }
+};
+template <>
+struct Elem<std::string> {
+    static std::string make(int k) { return enc_str(k); }
+};
 
 // ---------------------------------------------------------------------------------------------
 // structure walk (friend of BTree, its iterators and the four facades)
@@ -318,6 +359,22 @@ struct VCmp {
         return desc ? y < x : x < y;
     }
 };
+//! the same order, but the state is OWNED by the object through members with a non-trivial copy / destructive move
+//! (a std::vector table and a heap-allocated std::string): a container that keeps using a comparator it has moved
+//! from, copies it member-wise from released storage or forgets to copy it throws / orders differently.
+template <class T>
+struct VCmpOwn {
+    std::vector<unsigned> st; // {shift, desc}
+    std::string note;
+    VCmpOwn() : st{0u, 0u}, note("default-constructed comparator state, long enough for the heap") {}
+    VCmpOwn(unsigned s, bool d) : st{s, d ? 1u : 0u}, note("comparator state given by the caller, long enough for the heap") {}
+    unsigned shift() const { return st.at(0); } // (a moved-from table is empty: std::out_of_range)
+    bool desc() const { return st.at(1) != 0; }
+    bool operator()(const T& a, const T& b) const {
+        int x = key_int(a) >> shift(), y = key_int(b) >> shift();
+        return desc() ? y < x : x < y;
+    }
+};
 // ---------------------------------------------------------------------------------------------
 // runaway-operation bound: the comparator handed to the tlx container counts its calls; the history
 // runner arms a generous per-operation budget (far above what any correct B+ tree operation needs for
@@ -411,6 +468,16 @@ struct StateTag {
     static const CmpId id = CMP_STATE;
 };
 
+struct OwnTag { // same orders as StateTag (the std model uses VCmp<int> with the same state)
+    template <class T>
+    using of = VCmpOwn<T>;
+    template <class T>
+    static of<T> make(unsigned s, bool d) { return of<T>(s, d); }
+    template <class X>
+    static void state(const X& c, unsigned& s, bool& d) { s = c.shift(), d = c.desc(); }
+    static const CmpId id = CMP_STATE;
+};
+
 //! static description of one configuration (what the non-template history runner needs to know)
 struct CfgInfo {
     int id;
@@ -422,6 +489,7 @@ struct CfgInfo {
     bool counting; // CountingAllocator
     bool tracked;  // Tracked elements
     bool raw;      // tlx::BTree itself instead of one of the four facades
+    const char* elem; // key (and data) type: "int", "Tracked", "string", "int/string", ... (labels)
     bool is_map() const { return kind == MAP || kind == MMAP; }
     bool multi() const { return kind == MSET || kind == MMAP; }
     bool stateful() const { return cmp == CMP_STATE; }
@@ -460,6 +528,15 @@ struct ITree {
     virtual void bulk_load(const std::vector<KD>& v) = 0;
     virtual bool erase_one(int k) = 0;
     virtual size_t erase_key(int k) = 0;
+    // ----- ALIASING calls: every argument is a reference to (a part of) an element stored in THIS container -----
+    // The element at rank ra (of n) supplies the value / the key, the element at rank rb the data of insert2.
+    // variant bit0: insert2(it_a->first, it_b->second) (maps only) instead of insert(*it_a); bit1: with hint at hint_rank
+    virtual void insert_alias(size_t ra, size_t rb, unsigned variant, size_t hint_rank, size_t n, Pos& pos, bool& ok, bool& have_ok, bool want_rank) = 0;
+    virtual bool erase_one_alias(size_t ra, size_t n) = 0;   // erase_one(key of *it_a)
+    virtual size_t erase_key_alias(size_t ra, size_t n) = 0; // erase(key of *it_a)  -- the referenced element is among the erased ones
+    // which: 0 exists 1 count 2 find 3 lower_bound 4 upper_bound 5 equal_range, argument = key of *it_a (by reference)
+    virtual void query_alias(size_t ra, size_t n, unsigned which, bool constant, size_t& cnt, Pos& a, Pos& b, bool want_rank) = 0;
+    virtual void swap_self() = 0; // c.swap(c)
     // cursor: 0 begin()+rank, 1 end()-(n-rank), 2 find(k), 3 lower_bound(k); (insert() also sets the cursor)
     virtual void locate(unsigned how, size_t rank, size_t n, int k, Pos& pos, bool want_rank) = 0;
     virtual void erase_cursor() = 0; // erase(iterator)
@@ -544,7 +621,20 @@ struct TreeOf<RAWMSET, Key, Dat, Cmp, Tr, Alloc> {
     typedef tlx::BTree<Key, Key, IdentityKey<Key>, Cmp, Tr, true, Alloc<Key> > type;
 };
 
-template <int ID, Kind K, int L, int I, size_t B, class CT, class Elem, bool Counting, bool CountCmp = false>
+template <class T>
+struct ElemName {
+    static const char* get() { return "int"; }
+};
+template <>
+struct ElemName<Tracked> {
+    static const char* get() { return "Tracked"; }
+};
+template <>
+struct ElemName<std::string> {
+    static const char* get() { return "string"; }
+};
+
+template <int ID, Kind K, int L, int I, size_t B, class CT, class KeyT, bool Counting, bool CountCmp = false, class DatT = KeyT>
 struct Cfg {
     static const int id = ID;
     static const bool raw = (K == RAWSET || K == RAWMSET);
@@ -555,8 +645,16 @@ struct Cfg {
     static const bool counting = Counting;
     static const bool binary = (B == 0);
     typedef CT cmp_tag;
-    typedef Elem Key;
-    typedef Elem Dat;
+    typedef KeyT Key;
+    typedef DatT Dat;
+    static const bool tracked = std::is_same<Key, Tracked>::value || (is_map && std::is_same<Dat, Tracked>::value);
+    static Key key(int k) { return Elem<Key>::make(k); }
+    static Dat dat(int d) { return Elem<Dat>::make(d); }
+    static const char* elem_name() {
+        static const std::string n = (is_map && !std::is_same<Key, Dat>::value) ? std::string(ElemName<Key>::get()) + "/" + ElemName<Dat>::get()
+                                                                                : std::string(ElemName<Key>::get());
+        return n.c_str();
+    }
     typedef typename CT::template of<Key> BaseCmp;
     typedef typename std::conditional<CountCmp, Counted<BaseCmp>, BaseCmp>::type TCmp; // C01: call-counting wrapper (runaway bound)
     template <class T>
@@ -566,8 +664,8 @@ struct Cfg {
     typedef typename Tree::value_type value_type;
 
     static value_type make(int k, int d) {
-        if constexpr (is_map) return value_type(Key(k), Dat(d));
-        else return Key(k);
+        if constexpr (is_map) return value_type(key(k), dat(d));
+        else return key(k);
     }
     static KD val(const value_type& v) {
         if constexpr (is_map) return KD(key_int(v.first), key_int(v.second));
@@ -702,8 +800,86 @@ public:
         to_vals(in, v);
         t.bulk_load(v.begin(), v.end());
     }
-    bool erase_one(int k) override { return t.erase_one(Key(k)); }
-    size_t erase_key(int k) override { return t.erase(Key(k)); }
+    bool erase_one(int k) override { return t.erase_one(C::key(k)); }
+    size_t erase_key(int k) override { return t.erase(C::key(k)); }
+    // ----- aliasing calls -----
+    static const Key& key_of(const value_type& v) {
+        if constexpr (C::is_map) return v.first;
+        else return v;
+    }
+    void insert_alias(size_t ra, size_t rb, unsigned variant, size_t hint_rank, size_t n, Pos& pos, bool& ok, bool& have_ok, bool want_rank) override {
+        const bool two = (variant & 1) != 0, hint = (variant & 2) != 0;
+        ok = true;
+        have_ok = false;
+        iterator ia = advance_to(t.begin(), t.end(), ra, n);
+        iterator ib = (rb == ra) ? ia : advance_to(t.begin(), t.end(), rb, n);
+        const value_type& v = *ia; // lives inside the container that is about to be modified
+        (void)ib;
+        iterator it;
+        if (hint) {
+            iterator h = (hint_rank == ra) ? ia : advance_to(t.begin(), t.end(), hint_rank, n);
+            if constexpr (C::is_map) it = two ? t.insert2(h, v.first, (*ib).second) : t.insert(h, v);
+            else it = t.insert(h, v);
+        }
+        else if constexpr (C::multi && !C::raw) {
+            if constexpr (C::is_map) it = two ? t.insert2(v.first, (*ib).second) : t.insert(v);
+            else it = t.insert(v);
+        }
+        else if constexpr (C::multi) it = t.insert(v).first;
+        else {
+            std::pair<iterator, bool> r;
+            if constexpr (C::is_map) r = two ? t.insert2(v.first, (*ib).second) : t.insert(v);
+            else r = t.insert(v);
+            it = r.first;
+            ok = r.second;
+            have_ok = true;
+        }
+        cur = it;
+        decode(it, t.begin(), t.end(), pos, want_rank, n + 1);
+    }
+    bool erase_one_alias(size_t ra, size_t n) override {
+        iterator ia = advance_to(t.begin(), t.end(), ra, n);
+        return t.erase_one(key_of(*ia));
+    }
+    size_t erase_key_alias(size_t ra, size_t n) override {
+        iterator ia = advance_to(t.begin(), t.end(), ra, n);
+        return t.erase(key_of(*ia));
+    }
+    void query_alias(size_t ra, size_t n, unsigned which, bool constant, size_t& cnt, Pos& a, Pos& b, bool want_rank) override {
+        const_iterator ia = advance_to(ct().begin(), ct().end(), ra, n);
+        const Key& key = key_of(*ia);
+        cnt = 0;
+        switch (which) {
+        case 0: cnt = t.exists(key) ? 1 : 0; break;
+        case 1: cnt = t.count(key); break;
+        case 2:
+            if (constant) decode(ct().find(key), ct().begin(), ct().end(), a, want_rank, n);
+            else decode(t.find(key), t.begin(), t.end(), a, want_rank, n);
+            break;
+        case 3:
+            if (constant) decode(ct().lower_bound(key), ct().begin(), ct().end(), a, want_rank, n);
+            else decode(t.lower_bound(key), t.begin(), t.end(), a, want_rank, n);
+            break;
+        case 4:
+            if (constant) decode(ct().upper_bound(key), ct().begin(), ct().end(), a, want_rank, n);
+            else decode(t.upper_bound(key), t.begin(), t.end(), a, want_rank, n);
+            break;
+        default:
+            if (constant) {
+                std::pair<const_iterator, const_iterator> r = ct().equal_range(key);
+                decode(r.first, ct().begin(), ct().end(), a, want_rank, n);
+                decode(r.second, ct().begin(), ct().end(), b, want_rank, n);
+            }
+            else {
+                std::pair<iterator, iterator> r = t.equal_range(key);
+                decode(r.first, t.begin(), t.end(), a, want_rank, n);
+                decode(r.second, t.begin(), t.end(), b, want_rank, n);
+            }
+            break;
+        }
+    }
+    void swap_self() override { t.swap(t); }
+
     void locate(unsigned how, size_t rank, size_t n, int k, Pos& pos, bool want_rank) override {
         switch (how) {
         case 0: {
@@ -716,20 +892,20 @@ public:
             for (size_t i = n; i > rank; --i) --cur;
             break;
         }
-        case 2: cur = t.find(Key(k)); break;
-        default: cur = t.lower_bound(Key(k)); break;
+        case 2: cur = t.find(C::key(k)); break;
+        default: cur = t.lower_bound(C::key(k)); break;
         }
         decode(cur, t.begin(), t.end(), pos, want_rank, n);
     }
     void erase_cursor() override { t.erase(cur); }
-    bool exists(int k) const override { return t.exists(Key(k)); }
-    size_t count(int k) const override { return t.count(Key(k)); }
+    bool exists(int k) const override { return t.exists(C::key(k)); }
+    size_t count(int k) const override { return t.count(C::key(k)); }
     void find(int k, bool constant, Pos& pos, bool want_rank, size_t n) override {
-        if (constant) decode(ct().find(Key(k)), ct().begin(), ct().end(), pos, want_rank, n);
-        else decode(t.find(Key(k)), t.begin(), t.end(), pos, want_rank, n);
+        if (constant) decode(ct().find(C::key(k)), ct().begin(), ct().end(), pos, want_rank, n);
+        else decode(t.find(C::key(k)), t.begin(), t.end(), pos, want_rank, n);
     }
     void bound(int k, unsigned which, bool constant, Pos& a, Pos& b, bool want_rank, size_t n) override {
-        Key key(k);
+        Key key(C::key(k));
         if (constant) {
             const_iterator f = ct().begin(), l = ct().end();
             if (which == 0) decode(ct().lower_bound(key), f, l, a, want_rank, n);
@@ -848,7 +1024,7 @@ public:
     const void* leaf_at(size_t rank, size_t n) override { return BTreeInspector::leaf_of(advance_to(t.begin(), t.end(), rank, n)); }
     void inspect(Walk& w) const override { BTreeInspector::walk(t, w); }
     void verify() const override { t.verify(); }
-    bool less(int a, int b) const override { return t.key_comp()(Key(a), Key(b)); }
+    bool less(int a, int b) const override { return t.key_comp()(C::key(a), C::key(b)); }
     void cmp_state(unsigned& shift, bool& desc) const override { C::cmp_tag::state(t.key_comp(), shift, desc); }
 };
 
@@ -869,7 +1045,7 @@ template <class C>
 struct Register {
     explicit Register(const char* name) {
         ConfigEntry e = {{C::id, name, C::kind, C::cmp_tag::id, C::leaf, C::inner, C::binary, C::counting,
-                          std::is_same<typename C::Key, Tracked>::value, C::raw},
+                          C::tracked, C::raw, C::elem_name()},
                          &create_tree<C>};
         config_table().push_back(e);
     }
@@ -889,12 +1065,27 @@ template <class C>
 struct RegisterScale {
     explicit RegisterScale(const char* name) {
         ConfigEntry e = {{C::id, name, C::kind, C::cmp_tag::id, C::leaf, C::inner, C::binary, C::counting,
-                          std::is_same<typename C::Key, Tracked>::value, C::raw},
+                          C::tracked, C::raw, C::elem_name()},
                          &create_tree<C>};
         scale_table().push_back(e);
     }
 };
 void run_scale_property(pbt::Source& src);
+
+//! ALIAS / DESTRUCTIVE-MOVE classes (targets btree_alias [C01] and btree_alias_invariants [C02]): configurations whose
+//! key / data types have a destructive move (std::string, verif::Tracked, mixed) and comparators that own their state,
+//! driven by the same history generator extended by the ALIASING operations (arguments that are references into the
+//! container being modified, c = c, c.swap(c)). Own table and own targets: the choice-byte -> case mapping of
+//! btree_model / btree_invariants / btree_scale is untouched.
+std::vector<ConfigEntry>& alias_table(); // C01_btree_history.cpp
+template <class C>
+struct RegisterAlias {
+    explicit RegisterAlias(const char* name) {
+        ConfigEntry e = {{C::id, name, C::kind, C::cmp_tag::id, C::leaf, C::inner, C::binary, C::counting, C::tracked, C::raw, C::elem_name()}, &create_tree<C>};
+        alias_table().push_back(e);
+    }
+};
+void run_alias_property(pbt::Source& src, bool model);
 
 } // namespace bt
 } // namespace verif
@@ -911,3 +1102,10 @@ void run_scale_property(pbt::Source& src);
 #define BT_CONFIG_C02(ID, KIND, L, I, BIN, CMP, ELEM)                                                                             \
     static ::verif::bt::Register< ::verif::bt::Cfg<ID, ::verif::bt::KIND, L, I, ::verif::bt::BIN, ::verif::bt::CMP, ELEM, true> > \
         bt_reg_##ID(#KIND " leaf=" #L " inner=" #I " " #BIN " " #CMP " " #ELEM " CountingAllocator");
+// alias targets: key type, data type (ignored for sets); C01: counting comparator + budget allocator, C02: arena allocator
+#define BT_CONFIG_C01A(ID, KIND, L, I, BIN, CMP, KEYT, DATT)                                                                    \
+    static ::verif::bt::RegisterAlias< ::verif::bt::Cfg<ID, ::verif::bt::KIND, L, I, ::verif::bt::BIN, ::verif::bt::CMP, KEYT, false, true, DATT> > \
+        bt_areg_##ID(#KIND " leaf=" #L " inner=" #I " " #BIN " " #CMP " key=" #KEYT " data=" #DATT);
+#define BT_CONFIG_C02A(ID, KIND, L, I, BIN, CMP, KEYT, DATT)                                                                     \
+    static ::verif::bt::RegisterAlias< ::verif::bt::Cfg<ID, ::verif::bt::KIND, L, I, ::verif::bt::BIN, ::verif::bt::CMP, KEYT, true, false, DATT> > \
+        bt_areg_##ID(#KIND " leaf=" #L " inner=" #I " " #BIN " " #CMP " key=" #KEYT " data=" #DATT " CountingAllocator");
